@@ -3,13 +3,14 @@
 built from the confirmation and trial logs in /tmp/seedlog (written by tools/confirm_seed.sh and tools/try_seed.sh)."""
 import json, os, re, shutil, sys
 P, k = sys.argv[1], sys.argv[2]
-src = f"/tmp/s/{P}/out"; dst = f"/verif/seeded/{P}-{k}"
+sid = sys.argv[3] if len(sys.argv) > 3 else k      # stored id (third round: files 1,2 are stored as 3,4)
+src = f"/tmp/s/{P}/out"; dst = f"/verif/seeded/{P}-{sid}"
 os.makedirs(dst, exist_ok=True)
 shutil.copy(f"{src}/patch{k}.diff", f"{dst}/patch.diff")
 shutil.copy(f"{src}/demo{k}.py", f"{dst}/demo.py")
 notes = open(f"{src}/notes{k}.md").read() if os.path.exists(f"{src}/notes{k}.md") else ""
 open(f"{dst}/notes.md", "w").write(notes)
-log = open(f"/tmp/seedlog/{P}_{k}.log").read()
+log = open(f"/tmp/seedlog/{P}_{sid}.log").read()
 m = re.search(r"RESULT demo_without=(\d+) demo_with=(\d+) suite='([^']*)'", log)
 checks = {}
 for blk in re.split(r"^== ", log, flags=re.M)[1:]:
@@ -22,13 +23,13 @@ for blk in re.split(r"^== ", log, flags=re.M)[1:]:
                    "concrete_input": any("no-failing-input-found" not in v for v in viol),
                    "replays": [r[:400] for r in rep], "no_longer_checks": nlc, "summary": summary[:1]}
 meta = {
-    "id": f"{P}-{k}", "breaks_property": P,
+    "id": f"{P}-{sid}", "breaks_property": P,
     "needs_to_manifest": notes.strip()[:3000],
-    "confirmed_by_me": {"cmd": f"tools/confirm_seed.sh seeded/{P}-{k}/patch.diff seeded/{P}-{k}/demo.py  (scratch worktree of /repo HEAD, removed afterwards)",
+    "confirmed_by_me": {"cmd": f"tools/confirm_seed.sh seeded/{P}-{sid}/patch.diff seeded/{P}-{sid}/demo.py  (scratch worktree of /repo HEAD, removed afterwards)",
                         "demo_exit_without_change": int(m.group(1)) if m else None,
                         "demo_exit_with_change": int(m.group(2)) if m else None,
                         "test_suite_with_change": m.group(3) if m else None},
-    "checks_run": {"cmd": f"tools/try_seed.sh seeded/{P}-{k}/patch.diff " + " ".join(checks) + "  (git -C /repo apply; ./check <id> --tier quick; git -C /repo checkout -- .)",
+    "checks_run": {"cmd": f"tools/try_seed.sh seeded/{P}-{sid}/patch.diff " + " ".join(checks) + "  (git -C /repo apply; ./check <id> --tier quick; git -C /repo checkout -- .)",
                    "results": checks},
     "author": "fresh sub-agent given only the property text and a scratch worktree of /repo (nothing from /verif)",
 }
